@@ -230,6 +230,14 @@ impl G {
             match r.below(4) { 0 => n.src.push(b'x'), 1 => n.ph[0] ^= 1, 2 => n.contract = self.users[r.below(self.users.len() as u64) as usize].to_vec(), _ => {} }
             return n;
         }
+        // one message in six is picked so that its approval hash starts with the byte of the stored Executed marker ('1') or with a zero byte:
+        // the stored Approved(hash) must still read back as approved
+        if r.chance(1, 6) {
+            let want = *r.pick(&[0x31u8, 0x31, 0x00]); let start = r.below(3) * 2000;
+            let mut m = Msg { chain: b"ethereum".to_vec(), id: vec![], src: b"0xabc".to_vec(), contract: self.users[0].to_vec(), ph: keccak(&[0]) };
+            for k in start..start + 6000 { m.id = format!("h{}-{}", want, k).into_bytes(); if keccak(&m.encode())[0] == want { break; } }
+            return m;
+        }
         Msg { chain: small_name(r, &["ethereum", "avalanche", "axelar", ""]), id: format!("id-{}", r.below(12)).into_bytes(),
               src: small_name(r, &["0xabc", "0xITS", "src", "0xAbCd"]), contract: self.users[r.below(self.users.len() as u64) as usize].to_vec(),
               ph: keccak(&[r.below(6) as u8]) }
